@@ -25,7 +25,7 @@ type c13Config struct {
 var c13Configs = []c13Config{{2, 2}, {3, 2}, {3, 3}, {4, 3}}
 
 var c13CtlFaults = []string{"pass", "lost", "error-reply", "duplicate"}
-var c13ContribFaults = []string{"pass", "lost", "error-reply", "share-random", "share-for-other-id", "commitment-altered", "vector-short", "vector-long", "vector-empty", "share-zero", "duplicate"}
+var c13ContribFaults = []string{"pass", "lost", "error-reply", "share-random", "share-for-other-id", "commitment-altered", "vector-short", "vector-long", "vector-empty", "share-zero", "duplicate", "resend-commitment-altered", "resend-vector-short", "resend-vector-long", "resend-vector-empty"}
 var c13ReplyFaults = []string{"pass", "lost", "share-random", "share-for-other-id", "commitment-altered", "vector-short", "vector-long", "vector-empty", "share-zero"}
 
 // tamper applies a contribution fault; secret/vvec are for recipient `to`; ids are all participant ids.
@@ -142,6 +142,17 @@ func c13Child(cfg c13Config, bound int, skip map[string]bool) c13Result {
 				return rig.DeliverThenError
 			case "duplicate":
 				return rig.DeliverTwice
+			case "resend-commitment-altered", "resend-vector-short", "resend-vector-long", "resend-vector-empty":
+				// The genuine contribution arrives, then a second copy with the same share and another vector.
+				rejecting = true
+				kind := strings.TrimPrefix(f, "resend-")
+				to := m.To
+				m.Again = func(secret *bls.SecretKey, vvec *[]bls.PublicKey) {
+					keep := *secret
+					c13Tamper(kind, to, ids, cfg.T, secret, vvec)
+					*secret = keep
+				}
+				return rig.DeliverThenAgain
 			default:
 				rejecting = true
 				c13Tamper(f, m.To, ids, cfg.T, m.Secret, &m.VVec)
@@ -372,7 +383,7 @@ func C13(tier string) int {
 	run.Coverage = map[string]any{
 		"evaluations":         execs,
 		"distinct_nontrivial": len(outcomes),
-		"rule":                fmt.Sprintf("for (n,t) in {(2,2),(3,2),(3,3),(4,3)} every execution of a full generation on real instances with at most %d faults, where every prepare and execute message (lost, error reply, duplicate), every contribution request (lost, error reply, random share, contribution made for another identifier, altered commitment, vector one entry short, vector one entry long with a consistent share, vector with no entries, all-zero share, duplicate) and every contribution reply (lost, random share, other identifier, altered commitment, short, long, empty, zero share) is a choice point; run in worker processes so that a crash is observed; oracle: after a rejecting fault the client gets an error and no instance holds the account; duplicates are all-or-nothing; no worker dies; distinct = (config, outcome) pairs", bound),
+		"rule":                fmt.Sprintf("for (n,t) in {(2,2),(3,2),(3,3),(4,3)} every execution of a full generation on real instances with at most %d faults, where every prepare and execute message (lost, error reply, duplicate), every contribution request (lost, error reply, random share, contribution made for another identifier, altered commitment, vector one entry short, vector one entry long with a consistent share, vector with no entries, all-zero share, duplicate, and the genuine contribution followed by a second copy with the same share and an altered, short, long or empty vector) and every contribution reply (lost, random share, other identifier, altered commitment, short, long, empty, zero share) is a choice point; run in worker processes so that a crash is observed; oracle: after a rejecting fault the client gets an error and no instance holds the account; duplicates are all-or-nothing; no worker dies; distinct = (config, outcome) pairs", bound),
 		"samples":             samples.List(),
 		"exhaustive":          true,
 		"deviation_bound":     bound,
